@@ -100,67 +100,92 @@ def build_tickets(c, s, rng, now):
     return first, second
 
 
+class _Rec:
+    """what the scripted authentication server needs to answer one login: the case, where to record, its tickets, its station"""
+    def __init__(self, c, obs, first_ticket, second_ticket, station):
+        self.c, self.obs, self.first_ticket, self.second_ticket, self.station = c, obs, first_ticket, second_ticket, station
+
+
 def make_auth_server(c, s, obs, first_ticket, second_ticket, station):
-    fault = c.get("fault")
-    def conn_data():
+    rec = _Rec(c, obs, first_ticket, second_ticket, station)
+    return make_auth_server_dyn(c["version"], lambda username=None, pid=None: rec)
+
+
+def make_auth_server_dyn(version, resolve):
+    """the scripted authentication server; `resolve(username=…)` / `resolve(pid=…)` names the login (a _Rec) a call belongs to
+    (one constant record for a single run, the current / the named step for a session); None = nobody the server knows"""
+    def lookup(**kw):
+        rec = resolve(**kw)
+        if rec is None: raise common.RMCError("RendezVous::InvalidUsername")
+        return rec
+    def conn_data(rec):
         d = authentication.RVConnectionData()
-        d.main_station = station
+        d.main_station = rec.station
         d.special_protocols = []
         d.special_station = common.StationURL()
         d.server_time = common.DateTime(0)
         return d
-    def first_response(with_source_key):
+    def first_response(rec, with_source_key):
+        fault = rec.c.get("fault")
         if fault == "first-rmc-error":
             raise common.RMCError("Authentication::UnderMaintenance")
         r = rmc.RMCResponse()
         r.result = common.Result.error("Authentication::ValidationFailed") if fault == "first-error-result" else common.Result.success()
-        r.pid = c["pid"]
-        r.ticket = first_ticket
-        r.connection_data = conn_data()
+        r.pid = rec.c["pid"]
+        r.ticket = rec.first_ticket
+        r.connection_data = conn_data(rec)
         r.server_name = "srv"
-        if with_source_key: r.source_key = c["source_key_text"]
+        if with_source_key: r.source_key = rec.c["source_key_text"]
         return r
     def ticket_response(source, target):
-        obs["calls"].append("requestTicket %d %d" % (source, target))
+        rec = lookup(pid=source)
+        fault = rec.c.get("fault")
+        rec.obs["calls"].append("requestTicket %d %d" % (source, target))
         if fault == "second-rmc-error":
             raise common.RMCError("Authentication::TokenExpired")
         r = rmc.RMCResponse()
         r.result = common.Result.error("Authentication::InvalidParam") if fault == "second-error-result" else common.Result.success()
-        r.ticket = second_ticket
+        r.ticket = rec.second_ticket
         r.key = ""
         return r
 
-    if c["version"] < 40000:
+    if version < 40000:
         class Srv(authentication.AuthenticationServer):
             async def login(self, client, username):
-                obs["calls"].append("login " + username); return first_response(False)
+                rec = lookup(username=username)
+                rec.obs["calls"].append("login " + username); return first_response(rec, False)
             async def login_ex(self, client, username, extra):
-                obs["calls"].append("loginEx " + username); obs["extra"].append(type(extra).__name__); return first_response(False)
+                rec = lookup(username=username)
+                rec.obs["calls"].append("loginEx " + username); rec.obs["extra"].append(type(extra).__name__); return first_response(rec, False)
             async def request_ticket(self, client, source, target):
                 return ticket_response(source, target)
     else:
         class Srv(authentication.AuthenticationServerNX):
             # like a real server of its generation, it only implements the login method of its own version band
             async def validate_and_request_ticket(self, client, username):
-                obs["calls"].append("validateAndRequestTicket " + username)
-                if c["version"] >= 40400: raise common.RMCError("Core::NotImplemented")
-                return first_response(False)
+                rec = lookup(username=username)
+                rec.obs["calls"].append("validateAndRequestTicket " + username)
+                if version >= 40400: raise common.RMCError("Core::NotImplemented")
+                return first_response(rec, False)
             async def validate_and_request_ticket_with_custom_data(self, client, username, extra):
-                obs["calls"].append("validateAndRequestTicketWithCustomData " + username); obs["extra"].append(type(extra).__name__)
-                if c["version"] >= 40400: raise common.RMCError("Core::NotImplemented")
-                return first_response(True)
+                rec = lookup(username=username)
+                rec.obs["calls"].append("validateAndRequestTicketWithCustomData " + username); rec.obs["extra"].append(type(extra).__name__)
+                if version >= 40400: raise common.RMCError("Core::NotImplemented")
+                return first_response(rec, True)
             async def request_ticket(self, client, source, target):
                 return ticket_response(source, target)
             async def validate_and_request_ticket_with_param(self, client, param):
+                rec = lookup(username=param.username)
+                fault = rec.c.get("fault")
                 has = not isinstance(param.data, common.NullData)
-                obs["calls"].append("validateAndRequestTicketWithParam %s %d %d %d" % (param.username, 1 if has else 0, param.nex_version, param.client_version))
-                obs["extra"].append(type(param.data).__name__)
-                if c["version"] < 40400: raise common.RMCError("Core::NotImplemented")
+                rec.obs["calls"].append("validateAndRequestTicketWithParam %s %d %d %d" % (param.username, 1 if has else 0, param.nex_version, param.client_version))
+                rec.obs["extra"].append(type(param.data).__name__)
+                if version < 40400: raise common.RMCError("Core::NotImplemented")
                 if fault == "first-rmc-error" or fault == "first-error-result":
                     raise common.RMCError("Authentication::ValidationFailed" if fault == "first-error-result" else "Authentication::UnderMaintenance")
                 r = authentication.ValidateAndRequestTicketResult()
-                r.pid = c["pid"]; r.ticket = first_ticket; r.server_url = station
-                r.server_time = common.DateTime(0); r.server_name = "srv"; r.source_key = c["source_key_text"]
+                r.pid = rec.c["pid"]; r.ticket = rec.first_ticket; r.server_url = rec.station
+                r.server_time = common.DateTime(0); r.server_name = "srv"; r.source_key = rec.c["source_key_text"]
                 return r
     return Srv()
 
